@@ -291,12 +291,32 @@ extern "C" int harness_main() {
 #ifdef WITH_FAILURES
   o.run.may_fail = true; o.failures_allowed = 1 + verif_choice("keep_going_minus_1", 2);
 #endif
+#ifdef SMART_TERMINAL
+  // stdout is a terminal: status lines overprint each other (\r ... ESC[K), are elided to the terminal width, command output starts on a new line
+  static const int kCols[] = { 0, 24, 200 }; int cols = kCols[verif_choice("terminal_columns", 3)];
+  setenv("TERM", "xterm", 1); verif_set_tty(1, cols);
+#endif
   verif_stdout_capture();
   InvocationResult r = invoke(o);
   VERIF_ASSERT(r.parsed && r.added, "the scenario manifest parses and the targets are known");
   static char buf[16384]; long n = verif_stdout_copy(buf, sizeof buf); std::string out(buf, (size_t)n);
+#ifdef SMART_TERMINAL
+  verif_set_tty(0, 0);
+  { // what is left on each terminal line: the text after the last carriage return, without the clear-to-end-of-line sequences
+    std::string shown, line; bool elided_ok = true;
+    for (size_t i = 0; i <= out.size(); i++) {
+      if (i == out.size() || out[i] == '\n') { shown += line; if (i < out.size()) shown += '\n'; line.clear(); continue; }
+      if (out[i] == '\r') { line.clear(); continue; }
+      if (out[i] == 0x1B && i + 2 < out.size() && out[i + 1] == '[' && out[i + 2] == 'K') { i += 2; continue; }
+      line += out[i];
+    }
+    // an overprinted status line never exceeds the terminal width
+    if (cols) { size_t p = 0; while (p < out.size()) { size_t e = out.find_first_of("\r\n", p); if (e == std::string::npos) e = out.size(); std::string seg = out.substr(p, e - p); size_t k = seg.find("\x1B[K"); if (k != std::string::npos && seg.size() > 1 && seg[0] == '[') elided_ok = elided_ok && k <= (size_t)cols; p = e + 1; } }
+    VERIF_ASSERT(elided_ok, "C20: a status line on a terminal is elided to the terminal width");
+    out = shown; verif_reach("smart-terminal"); }
+#endif
 #ifdef DEBUG_EVENTS
-  fprintf(stderr, "STDOUT:\n%s\n---\n", out.c_str());
+  { std::string esc; for (size_t i = 0; i < out.size(); i++) { unsigned char c = out[i]; if (c == '\n') esc += "\\n\n     "; else if (c == '\r') esc += "\\r"; else if (c == 0x1B) esc += "\\e"; else esc += (char)c; } verif_note(("STDOUT: " + esc).c_str()); }
 #endif
   // every block of command output appears exactly once, whole, directly after the status line of its command
   for (size_t i = 0; i < g_ref.size(); i++) {
@@ -309,7 +329,11 @@ extern "C" int harness_main() {
     if (c2 == 1) {
       // the line before the block is this command's status line: "[f/t] <command>"
       size_t p = out.find(block); size_t ls = p >= 2 ? out.rfind('\n', p - 2) : std::string::npos; std::string line = out.substr(ls == std::string::npos ? 0 : ls + 1, p - (ls == std::string::npos ? 0 : ls + 1));
-      VERIF_ASSERT(line.size() > 0 && line[0] == '[' && line.find("] " + e.command.substr(0, e.command.find(";rspfile="))) != std::string::npos, "C20: command output directly follows the status line of the command that produced it");
+      std::string want = e.command.substr(0, e.command.find(";rspfile=")); bool is_status = line.size() > 0 && line[0] == '[' && line.find("] " + want) != std::string::npos;
+#ifdef SMART_TERMINAL
+      { size_t dots = line.find("..."); if (!is_status && dots != std::string::npos && line[0] == '[') { std::string tail = line.substr(dots + 3); while (!tail.empty() && tail[tail.size() - 1] == '\n') tail.resize(tail.size() - 1); is_status = tail.size() <= want.size() && want.compare(want.size() - tail.size(), tail.size(), tail) == 0; } }
+#endif
+      VERIF_ASSERT(is_status, "C20: command output directly follows the status line of the command that produced it");
     }
     if (e1 == 1) {
       size_t p = out.find(errblock); std::string cmdline = e.command.substr(0, e.command.find(";rspfile=")) + "\n";
